@@ -526,23 +526,30 @@ func (this *Dataset) searchPartition(ctx context.Context, partition *partition, 
 	resultCh <- result
 }
 
-func (this *Dataset) groupBatchItemsByPartition(items []*pb.BatchItem) map[*partition][]*pb.BatchItem {
+func (this *Dataset) groupBatchItemsByPartition(items []*pb.BatchItem) (map[*partition][]*pb.BatchItem, error) {
 	result := make(map[*partition][]*pb.BatchItem)
 	for _, item := range items {
-		partition := this.getPartitionForId(uuid.Must(uuid.FromBytes(item.GetId())))
+		id, err := uuid.FromBytes(item.GetId())
+		if err != nil {
+			return nil, err
+		}
+		partition := this.getPartitionForId(id)
 		if _, exists := result[partition]; !exists {
 			result[partition] = make([]*pb.BatchItem, 0)
 		}
 		result[partition] = append(result[partition], item)
 	}
-	return result
+	return result, nil
 }
 
 func (this *Dataset) partitionsBatchRequest(ctx context.Context, items []*pb.BatchItem, remoteFn partitionBatchRequestRemoteFn, localFn partitionBatchRequestLocalFn) (map[uuid.UUID]error, error) {
 	wg := &sync.WaitGroup{}
 	resultCh := make(chan partitionBatchResult)
 
-	partitionItems := this.groupBatchItemsByPartition(items)
+	partitionItems, err := this.groupBatchItemsByPartition(items)
+	if err != nil {
+		return nil, err
+	}
 	for partition, items := range partitionItems {
 		wg.Add(1)
 		go this.handlePartitionBatchRequest(ctx, partition, items, wg, resultCh, remoteFn, localFn)
